@@ -52,7 +52,7 @@ def _c01() -> SimEngine:
 
 def _c02() -> SimEngine:
     prof = profile(sizes=FIN, p_cb=0.7, p_cb_wait=0.5, p_worker_raise=0.15, p_cb_raise=0.05, p_bad_return=0.06,
-                   ops={"cancel": 5, "cancel_group": 2, "cancel_all": 0.6, "stop": 2, "flush": 2.5, "tick": 8, "spawn": 8, "close": 0.1, "abandon": 0.6},
+                   ops={"cancel": 5, "cancel_group": 2, "cancel_all": 0.6, "stop": 2, "flush": 2.5, "tick": 8, "spawn": 8, "close": 0.5, "abandon": 0.6},
                    cancel_refs=["run", "run", "run", "run", "live", "any"])
 
     def sw(tier: str):
